@@ -429,7 +429,21 @@ def run_check(prop_id, groups, tier, level, trusted=(), assumptions=(), explanat
         jobs = int(os.environ.get("VERIF_JOBS", "0") or 0) or max(1, min(16, (os.cpu_count() or 4)))
         results = []
         with concurrent.futures.ThreadPoolExecutor(max_workers=jobs) as ex:
-            futs = {ex.submit(run_group, g, scratch, scratch): g for g in sel}
+            # groups that may need a large share of the machine's memory run one at a time (memory budget of the
+            # machine / 2), the others in parallel
+            import threading
+            try:
+                with open("/proc/meminfo") as fh:
+                    total_gb = int(re.search(r"MemTotal:\s+(\d+)", fh.read()).group(1)) / (1 << 20)
+            except Exception:
+                total_gb = 16
+            heavy = threading.Semaphore(max(1, int(total_gb * 0.8 // 28)))
+            def run_one(g):
+                if g.mem_gb >= 20:
+                    with heavy:
+                        return run_group(g, scratch, scratch)
+                return run_group(g, scratch, scratch)
+            futs = {ex.submit(run_one, g): g for g in sel}
             for fu in concurrent.futures.as_completed(futs):
                 g = futs[fu]
                 try:
